@@ -114,6 +114,15 @@ def run(chk):
                         okx = okx and any('checked_add overflows' == n[0] and n[1] == 1 for n in x.st.notes)
                     ok = ok and okx
                 chk.ob('typed-align', '%s::align_up(2^%d) = %s(align_up(self.0, align)) on every path' % (T.split('::')[-1], k, ctor.split('::')[-1]), ok, 'paths %r' % (o,), fn_site(I, fn_))
+            # any alignment: the typed forms return only for powers of two (where the obligations above decide the value)
+            # and panic otherwise - is_aligned included, so it can never answer for a non-power-of-two alignment
+            for fn_, sub in ((T + '::align_down_u64', None), (T + '::is_aligned_u64', None), (T + '::align_up', {'U': U64})):
+                o = r1(fn_, [val, BV.sym(64, 'al')], sub)
+                pow2 = lambda x, tv: any(isinstance(kf, tuple) and len(kf) == 3 and kf[1] == 'pow2' and v2 == tv for kf, v2 in x.st.facts.items())
+                okr = bool(o) and all(pow2(x, 1) for x in o if x.kind == 'ret')
+                okp = any(x.kind == 'panic' and pow2(x, 0) for x in o)
+                chk.ob('align-pow2', '%s returns only under align.is_power_of_two() and panics otherwise' % fn_.replace('addr::', ''), okr and okp,
+                       'paths %r' % ([(x.kind, x.st.notes[:1]) for x in o],), fn_site(I, fn_))
     chk.guard('typed-align', 'VirtAddr/PhysAddr alignment', typed)
 
     # ---- pages and frames
